@@ -13,6 +13,10 @@ import (
 // process and prints where the two traces first differ.
 func DebugRun(t *testing.T, p *Prop, run int64, base uint64) {
 	seed := verifsim.Mix(base, uint64(run))
+	tier := os.Getenv("VERIF_DEBUG_TIER") // the generator's sizes depend on the tier
+	if tier == "" {
+		tier = "quick"
+	}
 	// VERIF_DEBUG_PRE=<from>-<to>: execute those runs first (process history), results ignored
 	var from, to int64
 	if n, _ := fmt.Sscanf(os.Getenv("VERIF_DEBUG_PRE"), "%d-%d", &from, &to); n == 2 {
@@ -21,14 +25,14 @@ func DebugRun(t *testing.T, p *Prop, run int64, base uint64) {
 			step = -1
 		}
 		for r := from; r != to+step; r += step {
-			w, s := p.Gen(verifsim.NewRng(verifsim.Mix(base, uint64(r))), "quick")
+			w, s := p.Gen(verifsim.NewRng(verifsim.Mix(base, uint64(r))), tier)
 			p.Exec(t, w, s)
 		}
 	}
 	var traces [2][]string
 	var hashes [2]uint64
 	for k := 0; k < 2; k++ {
-		w, s := p.Gen(verifsim.NewRng(seed), "quick")
+		w, s := p.Gen(verifsim.NewRng(seed), tier)
 		o := p.Exec(t, w, s)
 		hashes[k] = o.Hash
 		if o.Res != nil {
@@ -37,7 +41,7 @@ func DebugRun(t *testing.T, p *Prop, run int64, base uint64) {
 		if o.Res == nil {
 			fmt.Fprintf(os.Stderr, "exec %d: hash %x (no simulated run) violations %v discarded %v\n", k, o.Hash, o.Violations, o.Discarded)
 		} else {
-			fmt.Fprintf(os.Stderr, "exec %d: hash %x outcome %v steps %d violations %v\n", k, o.Hash, o.Res.Outcome, o.Res.Steps, o.Violations)
+			fmt.Fprintf(os.Stderr, "exec %d: hash %x outcome %v steps %d violations %v blocked %v\n", k, o.Hash, o.Res.Outcome, o.Res.Steps, o.Violations, o.Res.Blocked)
 		}
 		if os.Getenv("VERIF_DEBUG_SAMPLE") != "" {
 			b, _ := json.Marshal(o.Sample)
